@@ -170,6 +170,68 @@ CLAIMS = {
         "technique": "Lean 4 proof (normalisation algebra) + model/implementation correspondence; PRNG external",
         "design_ref": "DESIGN.md §5 C18",
     },
+    "C06": {
+        "text": "PARTIAL. Lean theorems (induction, any state type, every n): repeat over a batch = batch of repeats; "
+                "entry [t][b] of the rollout of the batched stepper = entry [b][t] of the batch of rollouts for every t, b, with "
+                "and without the initial state (vmap o rollout = transpose(rollout o vmap)); no cross-talk between batch members; "
+                "a parameter sweep (zipWith over constructor arguments) equals building each stepper separately. XLA "
+                "compilation, tracers and Python-level value-dependent branching under tracing cannot be expressed in the model: "
+                "they are reached by the correspondence (eager / filter_jit / vmap / vmap-jit-rollout outputs of every public "
+                "stepper class against the single model evaluation) and by the oracle (leaf dtypes, traced constructor "
+                "arguments, batch-order permutations). (Repaired defect: traced injection_scale, see known_findings.json.)",
+        "technique": "Lean 4 proof (batch/rollout algebra by induction) + model/implementation correspondence under jit/vmap/scan; XLA external",
+        "design_ref": "DESIGN.md §5 C06",
+    },
+    "C07": {
+        "text": "PARTIAL. Lean theorems: the linear step is linear in the state (its Frechet derivative is the step itself), "
+                "HasDerivAt of the regenerated propagator w.r.t. dt and w.r.t. the symbol with the stated derivatives, the guarded "
+                "inverse Laplacians depend on (D, N, 2pi/L) only so that no listed derivative flows through a guarded division, "
+                "the wave symbols' guards. JAX's AD engine and IEEE NaN propagation are not modelled: the correspondence compares "
+                "jax.jvp / jax.grad of every stepper with the model evaluated on tangents and with central differences of the "
+                "model; the oracle checks jvp/vjp duality, finite gradients at the guarded points (zero state, zero mean mode), "
+                "gradients through rollouts and w.r.t. constructor parameters.",
+        "technique": "Lean 4 proof (linearity, HasDerivAt of the propagator, guard independence) + AD-vs-model correspondence; AD engine external",
+        "design_ref": "DESIGN.md §5 C07",
+    },
+    "C08": {
+        "text": "Lean theorems: forward and inverse shift theorem of the model transform (1-D, every N>=1, any stored spectrum), "
+                "translation equivariance of every nonlinear term of the model (conservative / non-conservative / single-channel "
+                "convection, polynomial, gradient norm, general, Cahn-Hilliard; arbitrary state, mask and scales), of every "
+                "regenerated ETDRK stage formula (orders 0-4, arbitrary coefficients), of n steps and of rollouts, closing with "
+                "the physical-space statement roll(step^n u) = step^n(roll u) for ETDRK4 + convection; axis permutation and "
+                "1-D embedding at the level of the symbols for every D and of the stage formulas for arbitrary mode relabellings. "
+                "Not proved in Lean: the n-D roll of the transform and reflections (correspondence of each stepper with the "
+                "model + oracle on the implementation: integer shifts per axis, axis swaps with permuted anisotropic coefficients, "
+                "reflections with sign rules, 1-D embedding).",
+        "technique": "Lean 4 proof (DFT shift theorem + equivariance of model terms and translated stage formulas) + correspondence",
+        "design_ref": "DESIGN.md §5 C08",
+    },
+    "C09": {
+        "text": "Lean theorems: conservation-form linear operators have symbol 0 at the mean mode hence exp_term = 1 there; "
+                "every regenerated ETDRK stage formula (orders 1-4) with E(0)=Eh(0)=1 returns the mean mode unchanged whenever "
+                "the nonlinear term has zero mean-mode output, for any number of steps; a per-mode equilibrium lambda u + N(u) = 0 "
+                "is a fixed point of every regenerated stage formula with the exact phi coefficients (lambda != 0) and with any "
+                "coefficients when lambda = 0 and N(u) = 0; mean-mode behaviour of the gradient-norm term. The zero mean-mode "
+                "output of the conservative model terms and the discrete no-work identities are proved as far as "
+                "Properties/C09.lean states (the rest is observed). Correspondence: every listed stepper vs the model on "
+                "white-noise and smooth states. Oracle: mean drift, constant equilibria, <u,N(u)>=0 / enstrophy / energy on "
+                "band-limited states.",
+        "technique": "Lean 4 proof (mean-mode algebra of translated stage formulas + model terms) + correspondence",
+        "design_ref": "DESIGN.md §5 C09",
+    },
+    "C19": {
+        "text": "PARTIAL. Lean theorems in exact arithmetic about the regenerated coefficient definitions: for real z = lambda*dt <= 0 "
+                "and even M every contour node is at distance >= r sin(pi/M) from the removable singularity (z = 0, tiny and "
+                "arbitrarily stiff z alike); every contour integrand and every stored ETDRK1-4 coefficient is bounded by "
+                "|dt| C(r, M) uniformly in the stiffness; propagators are bounded by 1; one step is bounded by the state plus K "
+                "times the nonlinear evaluations. IEEE overflow/underflow/NaN semantics and JAX dtype promotion cannot be "
+                "expressed in the model: the check observes them in two subprocesses (default float32 and x64): finiteness of "
+                "coefficients for |z| up to 1e15, output and leaf dtypes of every public stepper, single-vs-double agreement "
+                "within a multiple of float32 epsilon, zero state. Correspondence: binary64 model vs implementation coefficients "
+                "at stiff z.",
+        "technique": "Lean 4 proof (uniform bounds on translated contour coefficients) + float32/x64 session observation; IEEE semantics external",
+        "design_ref": "DESIGN.md §5 C19",
+    },
 }
 
 PENDING_REASON = "check not built yet in this session (model and theorems planned in DESIGN.md §5); not claimed until its check exists"
